@@ -25,6 +25,7 @@ CONSTANTS NMsgs,      \* number of messages the sender sends
           Partial,    \* TRUE: also explore the receiver inside read_all (header partly consumed, socket
                       \*       timeouts, the need-rekey flag) and the sender inside write_all (send() accepts part
                       \*       of the packet, times out); FALSE: read_message / send_message are one step each
+          SThreads,   \* sender threads calling send_message concurrently; {} = one sender, send_message is one step
           Mutations   \* seeded defects a behaviour may start with (cfg.mut), to show the properties bite:
                       \*   "nomac"  receiver skips MAC / tag verification
                       \*   "noseq"  sequence number left out of the MAC input
@@ -32,6 +33,8 @@ CONSTANTS NMsgs,      \* number of messages the sender sends
                       \*   "zin"    _activate_inbound keeps the old inflater
                       \*   "stalemode"  the "MAC is compared after decryption" decision is remembered from an earlier
                       \*                key epoch (switched off by an ETM / AEAD epoch, never switched on again)
+                      \*   "zoutside"   the payload is deflated BEFORE the write lock is taken, and deflate blocks refer back
+                      \*                to earlier packets (sync flush): wire order may differ from deflate order
                       \*   "stalecount" write_all re-applies the byte count of the previous send() after a socket timeout
                       \*                (bytes of the packet never reach the socket)
                       \*   "rekeydrop"  the idle-read NeedRekeyException also fires when part of the next packet's
@@ -46,6 +49,9 @@ VARIABLES cfg,        \* [strict, zlib, mode0, mut]: fixed per behaviour; mode0 
           smode,                          \* sender: framing mode of its current key epoch
           wcells,     \* sender, write_all: cells of the LAST packet on the wire the socket has accepted so far
           wlast,      \* sender, write_all: `n`, the number of cells the most recent send() accepted
+          lock,       \* sender: holder of Packetizer.__write_lock (0 = free)
+          pend,       \* sender: per thread, where it is inside send_message: [st |-> "idle" | "locked" | "deflated",
+                      \*         zid, zpos |-> position in the deflate stream its payload was compressed at]
           rseq, repoch, rzid, rzpos,      \* receiver: the same
           rmode,      \* receiver: framing mode of its current key epoch (etm / aead verify before decrypting)
           rtrail,     \* receiver: "compare the MAC after decryption" (what classic mode needs)
@@ -54,7 +60,7 @@ VARIABLES cfg,        \* [strict, zlib, mode0, mut]: fixed per behaviour; mode0 
           delivered,  \* Seq of what read_message returned: message id, or Alien
           rstate,     \* "ok" | "failed" (exception) | "waiting" (blocked for bytes that never come)
           nsw, ntamper
-svars == <<sseq, sepoch, szid, szpos, smode, wcells, wlast>>
+svars == <<sseq, sepoch, szid, szpos, smode, wcells, wlast, lock, pend>>
 rvars == <<rseq, repoch, rzid, rzpos, rmode, rtrail, rneed, taken, delivered, rstate>>
 vars  == <<cfg, sent, wire, arrived, svars, rvars, nsw, ntamper>>
 
@@ -76,6 +82,7 @@ Pkt(mid, kind) == [mid |-> mid, kind |-> kind, seq |-> sseq, epoch |-> sepoch,
                    whole  |-> TRUE]     \* FALSE: the stream ends inside this packet
 
 Lost(p)   == [p EXCEPT !.intact = FALSE, !.dirty = TRUE, !.lenok = FALSE]     \* a packet whose framing is gone
+Idle      == [st |-> "idle", zid |-> 0, zpos |-> 0]
 CheckMac  == cfg.mut # "nomac"
 MacHasSeq == cfg.mut # "noseq"
 FreshZOut == cfg.mut # "zout"
@@ -83,6 +90,7 @@ FreshZIn  == cfg.mut # "zin"
 
 Init == /\ cfg \in [strict : Stricts, zlib : Zlibs, mode0 : Modes, mut : {"none"} \cup Mutations]
         /\ wcells = Cells /\ wlast = 0
+        /\ lock = 0 /\ pend = [t \in SThreads |-> Idle]
         /\ smode = cfg.mode0 /\ rmode = cfg.mode0 /\ rtrail = (cfg.mode0 = "classic") /\ rneed = FALSE /\ taken = 0
         /\ sent = <<>> /\ wire = <<>> /\ arrived = 0
         /\ sseq = 0 /\ sepoch = 0 /\ szid = 0 /\ szpos = 0
@@ -94,18 +102,47 @@ Init == /\ cfg \in [strict : Stricts, zlib : Zlibs, mode0 : Modes, mut : {"none"
 \* (the packet is handed to write_all; when Partial, the socket takes it piece by piece: PartialSend)
 Written == IF wire = <<>> THEN 0 ELSE Cells * (Len(wire) - 1) + wcells
 SendMessage ==
+    /\ SThreads = {}
     /\ Len(sent) < NMsgs /\ wcells = Cells
     /\ wcells' = (IF Partial THEN 0 ELSE Cells) /\ wlast' = 0
     /\ sent' = Append(sent, Len(sent) + 1)
     /\ wire' = Append(wire, Pkt(Len(sent) + 1, "data"))
     /\ sseq' = (sseq + 1) % SeqMod
     /\ szpos' = IF cfg.zlib THEN szpos + 1 ELSE szpos
-    /\ UNCHANGED <<cfg, arrived, sepoch, szid, smode, rvars, nsw, ntamper>>
+    /\ UNCHANGED <<cfg, arrived, sepoch, szid, smode, lock, pend, rvars, nsw, ntamper>>
+
+(* send_message with several threads: `self.__write_lock.acquire()`, then deflate, build, encrypt, MAC, write,
+   release.  The deflate stream, the sequence number and the socket are shared; the lock makes deflate order =
+   sequence-number order = wire order.  `sent` is the order in which the messages went onto the wire. *)
+Busy == {t \in SThreads : pend[t].st # "idle"}
+DeflateOutside == cfg.mut = "zoutside"
+AcquireWriteLock(t) ==
+    /\ t \in SThreads /\ pend[t].st = "idle" /\ lock = 0 /\ ~DeflateOutside
+    /\ Len(sent) + Cardinality(Busy) < NMsgs
+    /\ lock' = t /\ pend' = [pend EXCEPT ![t].st = "locked"]
+    /\ UNCHANGED <<cfg, sent, wire, arrived, sseq, sepoch, szid, szpos, smode, wcells, wlast, rvars, nsw, ntamper>>
+Deflate(t) ==
+    /\ t \in SThreads
+    /\ IF DeflateOutside THEN pend[t].st = "idle" /\ Len(sent) + Cardinality(Busy) < NMsgs
+                         ELSE pend[t].st = "locked" /\ lock = t
+    /\ pend' = [pend EXCEPT ![t] = [st |-> "deflated", zid |-> szid, zpos |-> szpos]]
+    /\ szpos' = IF cfg.zlib THEN szpos + 1 ELSE szpos
+    /\ UNCHANGED <<cfg, sent, wire, arrived, sseq, sepoch, szid, smode, wcells, wlast, lock, rvars, nsw, ntamper>>
+\* build, encrypt, MAC with the current sequence number, write, release (the lock is taken here when the payload
+\* was deflated outside it)
+WritePacket(t) ==
+    /\ t \in SThreads /\ pend[t].st = "deflated" /\ wcells = Cells
+    /\ IF DeflateOutside THEN lock = 0 ELSE lock = t
+    /\ sent' = Append(sent, Len(sent) + 1)
+    /\ wire' = Append(wire, [Pkt(Len(sent) + 1, "data") EXCEPT !.zid = pend[t].zid, !.zpos = pend[t].zpos])
+    /\ sseq' = (sseq + 1) % SeqMod
+    /\ lock' = 0 /\ pend' = [pend EXCEPT ![t] = Idle]
+    /\ UNCHANGED <<cfg, arrived, sepoch, szid, szpos, smode, wcells, wlast, rvars, nsw, ntamper>>
 
 \* _activate_outbound: NEWKEYS goes out under the old keys (and through the old deflater), then the
 \* keys, the algorithms (mode m), the deflater and (strict kex) the sequence number are replaced
 ActivateOutbound(m) ==
-    /\ nsw < MaxSwitch /\ m \in Modes /\ wcells = Cells
+    /\ nsw < MaxSwitch /\ m \in Modes /\ wcells = Cells /\ lock = 0 /\ Busy = {}
     /\ wcells' = (IF Partial THEN 0 ELSE Cells) /\ wlast' = 0
     /\ wire' = Append(wire, [Pkt(NK, "newkeys") EXCEPT !.next = m])
     /\ smode' = m
@@ -114,13 +151,13 @@ ActivateOutbound(m) ==
     /\ szid'  = IF cfg.zlib /\ FreshZOut THEN sepoch + 1 ELSE szid
     /\ szpos' = IF cfg.zlib THEN (IF FreshZOut THEN 0 ELSE szpos + 1) ELSE szpos
     /\ nsw' = nsw + 1
-    /\ UNCHANGED <<cfg, sent, arrived, rvars, ntamper>>
+    /\ UNCHANGED <<cfg, sent, arrived, lock, pend, rvars, ntamper>>
 
 \* write_all: `n = self.__socket.send(out)` accepted k cells of what was left; `out = out[n:]`
 PartialSend(k) ==
     /\ Partial /\ wire # <<>> /\ wcells < Cells /\ k \in 1..(Cells - wcells)
     /\ wcells' = wcells + k /\ wlast' = k
-    /\ UNCHANGED <<cfg, sent, wire, arrived, sseq, sepoch, szid, szpos, smode, rvars, nsw, ntamper>>
+    /\ UNCHANGED <<cfg, sent, wire, arrived, sseq, sepoch, szid, szpos, smode, lock, pend, rvars, nsw, ntamper>>
 \* write_all: send() raised socket.timeout / EAGAIN: `n = 0`, nothing is skipped, the loop sends the same `out`
 \* again (no state change).  A version that keeps the previous n skips that many cells of the packet: they never
 \* reach the socket, the packet on the wire is garbage.
@@ -129,7 +166,7 @@ SendTimeout ==
     /\ cfg.mut = "stalecount" /\ wlast > 0
     /\ wire' = [wire EXCEPT ![Len(wire)] = Lost(wire[Len(wire)])]
     /\ wcells' = (IF wcells + wlast > Cells THEN Cells ELSE wcells + wlast) /\ wlast' = wlast
-    /\ UNCHANGED <<cfg, sent, arrived, sseq, sepoch, szid, szpos, smode, rvars, nsw, ntamper>>
+    /\ UNCHANGED <<cfg, sent, arrived, sseq, sepoch, szid, szpos, smode, lock, pend, rvars, nsw, ntamper>>
 
 (* ---- network: bytes trickle in (socket reads return any split, timeouts in between) ---- *)
 Arrive(k) ==
@@ -146,7 +183,10 @@ Verifies(p) == \/ MacSkipped
                \/ /\ p.intact /\ p.whole
                   /\ p.epoch = repoch
                   /\ (MacHasSeq => p.seq = rseq)
-Inflates(p) == ~cfg.zlib \/ (p.zid = rzid /\ p.zpos = rzpos)
+\* a deflate block written with a full flush stands on its own; with a sync flush it may refer back to the packets
+\* deflated before it, so it inflates to what was deflated only at exactly that position of the stream
+Chained     == cfg.mut = "zoutside"
+Inflates(p) == ~cfg.zlib \/ (p.zid = rzid /\ (p.zpos = rzpos \/ ~Chained))
 
 \* what read_message can do with packet p: "ok" = hand it up, "failed" = raise, "waiting" = block
 Accepts(p)  == p.whole /\ Verifies(p) /\ (p.kind = "newkeys" => Inflates(p) /\ ~p.dirty)
@@ -232,12 +272,14 @@ Attacker == \E i \in 1..(NMsgs + MaxSwitch + 1) :
 Next == SendMessage \/ (\E m \in Modes : ActivateOutbound(m)) \/ ReadMessage \/ (\E k \in 1..MaxChunk : Arrive(k)) \/ Attacker
         \/ RaiseNeedRekey \/ Consume \/ NeedRekeyOnIdle
         \/ (\E k \in 1..Cells : PartialSend(k)) \/ SendTimeout
+        \/ (\E t \in SThreads : AcquireWriteLock(t) \/ Deflate(t) \/ WritePacket(t))
 Spec == Init /\ [][Next]_vars
 
 (* ---- properties (of the code as it is: cfg.mut = "none") ---- *)
 TypeOK == /\ arrived \in 0..Written /\ wcells \in 0..Cells
           /\ rstate \in {"ok", "failed", "waiting"}
           /\ sseq \in 0..(SeqMod - 1) /\ rseq \in 0..(SeqMod - 1)
+          /\ lock \in {0} \cup SThreads /\ (lock # 0 => pend[lock].st # "idle")
           /\ taken \in 0..2 /\ rmode \in Modes /\ smode \in Modes
 PrefixOnly0   == IsPrefix(delivered, sent)                                   \* C02 and C01: order, no dup, no alien
 NoAlien0      == \A i \in 1..Len(delivered) : delivered[i] # Alien
